@@ -308,14 +308,15 @@ theorem fmod_left_type_regression :
     C++ scope chain, at its first assignment in it. -/
 theorem stmt_decl (params : List Var) (b : Block) : annotate params b = annotV [params] b := annotate_eq params b
 
-/-- **Statements agree.** For every function body of the core (`v = e`, `return e`, `if/elif/else`, `while`,
+/-- **Statements agree.** For every function body of the core (`v = e`, `v op= e`, `return e`, `if/elif/else`, `while`,
     `for v in range(begin, stop, step)`; expressions of the operator core on 32-bit ints and bools) that satisfies the static
     condition `scopeOK` —
-    * every name read is *visible* in the C++ block structure (a parameter, or first assigned earlier in the same or an enclosing
+    * every name read — and every target of an augmented assignment — is *visible* in the C++ block structure (a parameter, or first assigned earlier in the same or an enclosing
       block: Python's function-level scoping is never needed beyond C++'s block scoping),
     * for a `for`: the loop variable is a fresh name, the body assigns neither the loop variable nor any name `stop` / `step` read
-      (the emitted `for (auto v = begin; v < stop; v += step)` re-evaluates them and keeps `v` across iterations), `stop` may follow
-      `v < ` unparenthesised (`tightArg`), the step is positive —
+      (the emitted `for (auto v = begin; v < stop; v += step)` re-evaluates them and keeps `v` across iterations), `v < stop` is an
+      operator node of the core in which `stop` needs no parentheses (`for_test_reparses`: then the pasted loop test IS that node's
+      text; the C++ reading of the loop test is the parse of the pasted tokens), the step is positive, begin fits 32 bits —
     and every terminating Python execution (range evaluated once, loop variable rebound on each iteration) that stays InSubset and
     returns `r`: the C++ reading of the emitted statements (declaration at the first assignment per `VarsCollector`, plain assignment
     afterwards, `{ … }` and `for (…)` opening and closing scopes, emitted expression text parsed by the C++ grammar) returns `r` with
@@ -412,6 +413,21 @@ example :
   refine ⟨by decide, by decide, ?_⟩
   exact stmt_agree wForLits [1] [(1, 4)] wFor 30 14 (by intro v; by_cases h : v = 1 <;> simp [Store.get, h, eq_comm]) (by decide) (by decide)
 
+/-- `def f(n): t = 1;  for i in range(0, n, 1): t += i; t *= 2;   return t` -/
+def wAug : Block :=
+  .cons (.assign 2 ['t'] (wAt 11 '1'))
+  (.cons (.forRange 3 ['i'] (wAt 10 '0') (wAt 1 'n') (wAt 11 '1')
+      (.cons (.aug 2 ['t'] .add (wAt 3 'i')) (.cons (.aug 2 ['t'] .mul (wBin .add (wAt 11 '1') (wAt 11 '1'))) .nil)))
+  (.cons (.ret (wAt 2 't')) .nil))
+
+/-- non-vacuity with augmented assignments (assign/aug_assign.j2): ((1+0)*2+1)*2+2)*2 = 16 for n = 3 -/
+example :
+    (emitLines (fun _ => ['i', 'n', 't']) (annotate [1] wAug)).map String.ofList =
+      ["int t = 1;", "for (auto i = 0; i < n; i += 1) {", "t += i;", "t *= 1 + 1;", "}", "return t;"] ∧
+    cExec wForLits 30 [[(1, 3)]] (annotate [1] wAug) = .ok (.returned 16) := by
+  refine ⟨by decide, ?_⟩
+  exact stmt_agree wForLits [1] [(1, 3)] wAug 30 16 (by intro v; by_cases h : v = 1 <;> simp [Store.get, h, eq_comm]) (by decide) (by decide)
+
 /-- `def f(n): t = 0;  for i in range(0, n, 1):  (if n < 5: n = n + 1);  t = t + 1;   return t` -/
 def wReeval : Block :=
   .cons (.assign 2 ['t'] (wAt 10 '0'))
@@ -456,6 +472,39 @@ theorem range_loopvar_counterexamples :
         ["int t = 0;", "for (auto i = 0; i < n; i += 1) {", "i = i + 1;", "t = t + i;", "}", "return t;"] ∧
       pyExec wForLits 30 [(1, 4)] wLoopVar = .ok (.returned 10) ∧ cExec wForLits 30 [[(1, 4)]] (annotate [1] wLoopVar) = .ok (.returned 4)) := by
   refine ⟨⟨by decide, by decide, by decide⟩, ⟨by decide, by decide, by decide, by decide⟩⟩
+
+/-- the operators the model gives an augmented assignment are operators of the grammar's `aug_assign_op` (translated from
+    data/grammar.lark): `op.tok ++ "="` is one of its terminals; the grammar's remaining ones (`@= /= **= //=`) are outside the
+    int core. -/
+theorem aug_ops_in_grammar : ∀ op ∈ augOps, (op.tok ++ ['=']) ∈ augAssignOps := by decide
+
+/-! ## the loop test of the for statement -/
+
+/-- **The pasted loop test re-parses with the whole stop.** flow/for/range.j2 pastes the stop text after `v < ` without the guard
+    `proc_binary_operation_expression` gives a right operand (the section of the translated template between the two `;` is
+    `{{ symbol }} < {{ size }}`). For every stop that would NOT be parenthesised as a right operand of `<`
+    (`is_regrouped_operand(stop, '<')` false) the pasted tokens are exactly the emitted tokens of the operator node `v < stop`,
+    so — `group` — C++ parses them into the comparison of `v` with the whole of `stop`, Python's grouping of `v < stop`. -/
+theorem for_test_reparses (v : Var) (name : Str) (s0 : Node) (hreg : isRegrouped s0 BOp.lt.tok = false)
+    (hc : core (condNode v name s0) = true) (hw : wf (condNode v name s0) = true) (hf : cmpChainFree (condNode v name s0) = true) :
+    condPieces = [.var sSymbol, .sp, .tok ['<'], .sp, .var sSize] ∧
+    (cppLex (pastedCond v name s0)).map CTok.toPrec = toks (condNode v name s0) ∧
+    Regroups (condNode v name s0) := by
+  refine ⟨condPieces_eq, ?_, group _ hc hw hf⟩
+  simp only [toks, emit, pastedCond_eq v name s0 hreg]
+
+/-- `i < a & b` — a stop that needs the parentheses: atoms i=3 a=1 b=2 -/
+def wFlatStop : Node := wBin .band (wAt 1 'a') (wAt 2 'b')
+
+/-- **The hypothesis is necessary (known finding `flat:range-arg`, as a fact about the pasted text).** For the stop `a & b`
+    the pasted loop test is `i < a & b`, which is not the text of the node `i < (a & b)` and which C++ parses as `(i < a) & b`. -/
+theorem for_test_flat_counterexample :
+    isRegrouped wFlatStop BOp.lt.tok = true ∧
+    String.ofList (text (pastedCond 3 ['i'] wFlatStop)) = "i < a & b" ∧
+    String.ofList (text (emitRaw (condNode 3 ['i'] wFlatStop))) = "i < (a & b)" ∧
+    parse cppOps ((cppLex (pastedCond 3 ['i'] wFlatStop)).map CTok.toPrec) =
+      some (.bin (BOp.code .band) (.bin (BOp.code .lt) (.atom 3) (.atom 1)) (.atom 2)) := by
+  refine ⟨by decide, by decide, by decide, by decide⟩
 
 /-! ## which operand a parenthesis decision looks at -/
 
